@@ -9,17 +9,20 @@ GLOBAL_ASSUMPTIONS = [
 ]
 
 PROPS = {
-    "C01": {"units": ["streams"]},
-    "C02": {"units": ["range"]},
-    "C03": {"units": ["range"]},
-    "C04": {"units": ["cond"]},
-    "C06": {"units": ["streams"]},
+    "C01": {"units": ["glue", "streams"]},
+    "C02": {"units": ["glue", "range", "streams"]},
+    "C03": {"units": ["glue", "range"]},
+    "C04": {"units": ["glue", "cond"]},
+    "C05": {"units": ["glue"]},
+    "C06": {"units": ["glue", "streams"]},
     "C07": {"units": ["streams"]},
     "C08": {"units": ["chunker"]},
     "C10": {"units": ["chunker"]},
     "C11": {"units": ["chunker"]},
     "C12": {"units": ["streams", "chunker"]},
-    "C13": {"units": ["range"]},
+    "C13": {"units": ["glue", "range", "cond", "streams"]},
+    "C14": {"units": ["glue", "cond"]},
+    "C15": {"units": ["glue"]},
     "C20": {"units": ["streams", "chunker"]},
 }
 
